@@ -157,7 +157,8 @@ class Run:
         self.transitions += r.generated
         self.sched_stats[name] = len(seqs)
         self.models.append(dict(name=name, kind="solo", side=side, cfgs=cfgs, cats=list(cats), pre=[list(x) for x in pre], depth=depth, sequences=n_all,
-                                replayed=len(seqs), states=r.distinct, transitions=r.generated, wall_s=round(r.wall, 1),
+                                replayed=len(seqs), signatures=models.solo_sequences.signatures[0],
+                                signatures_replayed=models.solo_sequences.signatures[1], states=r.distinct, transitions=r.generated, wall_s=round(r.wall, 1),
                                 completed=r.completed, model_violations=len(viol)))
         return len(seqs)
 
